@@ -127,6 +127,13 @@ def run(chk):
         chk.tool_error("c10 e2e failed", out)
     vlib.validate_concat(chk, SPEC, "TraceDsdAgg", tcfg, tr3, "end-to-end over sockets", KNOWN)
     total += s3["runs"]
+    # sampled histograms through State::flush (sampling on): the identities that still hold
+    tr6 = chk.path("sampled.ndjson")
+    rc, out, s6 = vlib.harness("c10", ["sampled", "--runs", 1500 if thorough else 200, "--out", tr6], env=env)
+    if rc != 0 or not s6:
+        chk.tool_error("c10 sampled failed", out)
+    vlib.validate_concat(chk, SPEC, "TraceDsdAgg", tcfg, tr6, "sampled histogram cycles", KNOWN)
+    total += s6["runs"]
     # the forwarder's reconnect / drop state machine (specs/DsdForward): real exporter thread, unix datagram and stream
     # sockets, an agent that goes away and comes back while the forwarder is idle
     r = vlib.tlc_mc("DsdForward", "DsdForward", "MC.cfg", workers=4, timeout=600, tag="fwd")
